@@ -64,7 +64,9 @@ def judge_image(scn, image, asked, control_items, via):
     complete, tail = refmodel.vbs_parse(common.stream_of(scn, image), maxlen)
     fails = []
     tag = f"{scn['level']}|blk={int(scn['blocked'])}|rd={scn.get('reader', 'class')}"
-    if complete != asked[:len(complete)]:
+    # writer side, judged for real kills only: what a killed writer left on the disk must be complete
+    # records it was asked to write (a finished file that is simply wrong is C03's business, not C09's)
+    if via == "crash" and complete != asked[:len(complete)]:
         fails.append({"oracle": "C09.writer.disk_holds_prefix_of_asked",
                       "detail": f"{via}: the image holds {len(complete)} complete records that are not a prefix of the records written",
                       "sig": f"C09.writer.disk_holds_prefix_of_asked|{tag}|{via}"})
